@@ -118,7 +118,7 @@ pub fn eval(case: &J) -> Outcome {
     if sig1 != sig4 { let d = sig1.iter().zip(sig4.iter()).find(|(a, b)| a != b).unwrap(); out.fail(&format!("C16/determ/fixpoint-types-differ/{}", if same_modulo_type_structure(&r1, &r4) { "type-structure" } else { cls }), format!("{sql}: column `{}` has type {} but {} after render + compile", d.0 .0, d.0 .1, d.1 .1)); }
     let t4 = render(&r4);
     match compile(&t4) { Ok(Ok(r5)) => { if schema_sig(&r5) != sig4 { out.fail(&format!("C16/determ/second-fixpoint-schema-differs/{}", if same_modulo_type_structure(&r4, &r5) { "type-structure" } else { cls }), format!("{sql}: schema changes at the second render + compile")); } }
-        _ => out.fail(&format!("C16/determ/rendered-not-readable/second/{cls}"), format!("{sql}: second rendering {t4} is not readable")) }
+        _ => { let dc = crate::s_dialect::duplicate_cte_class(&t4); out.fail(&format!("C16/determ/rendered-not-readable/second/{}", if dc != "duplicate-cte-unclassified" { dc } else { cls }), format!("{sql}: second rendering {t4} is not readable")) } }
     // semantics: r1 and r4 return the same rows
     let mut rng = Rng::new(case["data_seed"].as_u64().unwrap());
     let data = gen_data2(&mut rng);
@@ -126,7 +126,7 @@ pub fn eval(case: &J) -> Outcome {
     if cls != "random" {
         match (db.run(&r1), db.run(&r4)) {
             (Ok(a), Ok(b)) => { let ord = case["ordered"].as_bool().unwrap_or(false); if rows_key(&a.1, ord) != rows_key(&b.1, ord) { out.fail(&format!("C16/determ/fixpoint-rows-differ/{cls}"), format!("{sql}: rows {:?} become {:?} after render + compile", a.1.iter().take(5).collect::<Vec<_>>(), b.1.iter().take(5).collect::<Vec<_>>())); } else { out.tag("fixpoint-same-rows"); } }
-            (Ok(_), Err(e)) => out.fail(&format!("C16/determ/fixpoint-not-executable/{cls}"), format!("{sql}: second-generation SQL fails: {e}")),
+            (Ok(_), Err(e)) => out.fail(&format!("C16/determ/fixpoint-not-executable/{}", if e.contains("duplicate WITH table name") { crate::s_dialect::duplicate_cte_class(&crate::exec::render(&r4)) } else { cls }), format!("{sql}: second-generation SQL fails: {e}")),
             _ => { out.tag("not-executable"); }
         }
     }
